@@ -329,7 +329,7 @@ PosSpec gen_evasion_family(Rng& r)
         b.ep = -1;
         b.halfmove = int(r.below(10));
         b.fullmove = int(r.range(20, 60));
-        int kind = int(r.below(2));
+        int kind = int(r.below(3));
         bool flip_colors = r.chance(0.5);
         bool mirror = r.chance(0.5);
         ref::RMove checking{};
@@ -362,6 +362,53 @@ PosSpec gen_evasion_family(Rng& r)
                 if (b.sq[q] || f + rk == 7 || rk == 0 || rk == 7) continue;
                 b.sq[q] = r.chance(0.5) ? ref::WP : ref::BP;
             }
+        }
+        else if (kind == 2)
+        {
+            // en passant with a pinned capturer: after the double push the capturing pawn is pinned against its own king
+            // on the file (capture illegal), on the rank through both pawns (illegal) or on the capture diagonal (legal)
+            int f = int(r.range(1, 6));
+            int cf = r.chance(0.5) ? f - 1 : f + 1;           // file of the capturing (white) pawn, on rank 5
+            b.sq[ref::sq_of(f, 6)] = ref::BP;                  // will play to rank 5
+            b.sq[ref::sq_of(cf, 4)] = ref::WP;
+            checking.from = int8_t(ref::sq_of(f, 6));
+            checking.to = int8_t(ref::sq_of(f, 4));
+            uint64_t pin = r.below(3);
+            if (pin == 0)
+            {
+                // file pin: white king below the pawn on its file, black rook/queen above it
+                b.sq[ref::sq_of(cf, int(r.range(0, 2)))] = ref::WK;
+                b.sq[ref::sq_of(cf, 7)] = r.chance(0.5) ? ref::BR : ref::BQ;
+                b.sq[ref::sq_of((cf + 4) % 8 == f ? (cf + 3) % 8 : (cf + 4) % 8, 7)] = ref::BK;
+            }
+            else if (pin == 1)
+            {
+                // rank pin through both pawns: king and rook on rank 5 either side
+                int lo = std::min(f, cf), hi = std::max(f, cf);
+                if (lo == 0 || hi == 7) continue;
+                b.sq[ref::sq_of(0, 4)] = ref::WK;
+                b.sq[ref::sq_of(7, 4)] = r.chance(0.5) ? ref::BR : ref::BQ;
+                b.sq[ref::sq_of(4, 7)] = ref::BK;
+                if (b.sq[ref::sq_of(4, 7)] != ref::BK) continue;
+            }
+            else
+            {
+                // diagonal pin along the capture direction: the capture stays on the pin line and is legal
+                int df = f - cf;                                 // +1 or -1: capture goes from (cf,4) to (f,5)
+                int kf2 = cf - df, kr2 = 3;                      // king one step behind the pawn on that diagonal
+                int bf = f + df, br = 6;                         // bishop two steps ahead
+                if (kf2 < 0 || kf2 > 7 || bf < 0 || bf > 7) continue;
+                b.sq[ref::sq_of(kf2, kr2)] = ref::WK;
+                b.sq[ref::sq_of(bf, br)] = r.chance(0.5) ? ref::BB : ref::BQ;
+                b.sq[ref::sq_of(7 - kf2 > 3 ? 7 : 0, 7)] = ref::BK;
+            }
+            // some extra white pawns so that the capture is not the only sensible move
+            for (int i = 0; i < 2; ++i)
+            {
+                int q = ref::sq_of(int(r.below(8)), 1);
+                if (!b.sq[q]) b.sq[q] = ref::WP;
+            }
+            b.side = 1;
         }
         else if (r.chance(0.5))
         {
@@ -434,12 +481,12 @@ PosSpec gen_evasion_family(Rng& r)
         ref::Board t = b;
         if (!t.legal_uci(checking.uci(), chk)) continue;
         t.make(chk);
-        if (!t.in_check(t.side)) continue;
+        if (kind != 2 && !t.in_check(t.side)) continue;
         p.start_fen = fen;
         p.game = ref::Game(b);
         // half of the time hand out the position before the checking move (the engine has to find / judge it),
         // otherwise the position after it (the engine is the one in check)
-        if (r.chance(0.5) && !t.legal().empty()) p.game.push(chk);
+        if ((kind == 2 || r.chance(0.5)) && !t.legal().empty()) p.game.push(chk);
         if (p.game.cur.legal().empty()) continue;
         return p;
     }
